@@ -74,6 +74,9 @@ pub struct Outcome {
     pub inconclusive: Option<String>,
     /// Named counters to be summed into the evidence.
     pub counters: Vec<(String, u64)>,
+    /// The failing case left the process in a state that cannot continue (threads stuck in the
+    /// code under test): report it at once, without shrinking, and end the shard.
+    pub fatal: bool,
 }
 
 impl Outcome {
@@ -114,6 +117,8 @@ pub struct Env {
     /// True when replaying a single case (more repeats, verbose).
     pub replay: bool,
     pub seed: u64,
+    /// where the shard report goes (None when replaying)
+    pub out_path: Option<PathBuf>,
 }
 
 impl Env {
@@ -548,6 +553,23 @@ where
                 }
                 let out = self.exec_caught(&c, env);
                 let failed = accr.borrow_mut().absorb(self.id, &cj, &out, known);
+                if failed && out.fatal {
+                    let mut a = accr.borrow_mut();
+                    let fl = out.fail.clone().unwrap();
+                    let path = write_replay(self.id, &cj, env.seed, &fl);
+                    a.rep.violations.push(ViolationRec {
+                        replay: path,
+                        msg: fl.msg,
+                        sig: fl.sig,
+                    });
+                    a.rep.nt_hashes = a.nt.iter().copied().collect();
+                    a.rep.wall_s = t0.elapsed().as_secs_f64();
+                    if let Some(op) = &env.out_path {
+                        let _ = std::fs::write(op, serde_json::to_string(&a.rep).unwrap());
+                    }
+                    let _ = std::fs::remove_dir_all(&env.scratch);
+                    std::process::exit(0);
+                }
                 if failed {
                     Err(TestCaseError::fail(out.fail.unwrap().msg))
                 } else {
@@ -736,12 +758,38 @@ pub fn supervise(prop: &dyn Property, tier: Tier, seed: u64) -> i32 {
                 }
             }
             None => {
-                if !timed_out || st.is_some() {
-                    harness_errors.push(format!(
-                        "shard {} produced no report (exit status {:?})",
-                        s, st
-                    ));
+                use std::os::unix::process::ExitStatusExt;
+                let sig = st.and_then(|x| x.signal());
+                let child_scratch = if Path::new("/dev/shm").is_dir() {
+                    PathBuf::from("/dev/shm")
+                } else {
+                    std::env::temp_dir()
                 }
+                .join(format!("vh-{}-{}-{}", _ch.id(), id, s));
+                let cur = child_scratch.join("current-case.json");
+                let case: Option<Value> = std::fs::read_to_string(&cur).ok().and_then(|t| serde_json::from_str(&t).ok());
+                match (sig, case) {
+                    (Some(sg), Some(case)) if sg != 9 => {
+                        // the process running the code under test was terminated by a signal
+                        // (abort, stack overflow, failed allocation ...) while executing this case
+                        let fl = Failure {
+                            sig: format!("process-died:signal-{}", sg),
+                            msg: format!("the process executing this case was terminated by signal {} (abort / stack overflow / failed allocation in the code under test)", sg),
+                        };
+                        let path = write_replay(id, &case, seed, &fl);
+                        total.violations.push(ViolationRec {
+                            replay: path,
+                            msg: fl.msg,
+                            sig: fl.sig,
+                        });
+                    }
+                    _ => {
+                        if !timed_out || st.is_some() {
+                            harness_errors.push(format!("shard {} produced no report (exit status {:?})", s, st));
+                        }
+                    }
+                }
+                let _ = std::fs::remove_dir_all(&child_scratch);
             }
         }
     }
@@ -753,6 +801,10 @@ pub fn supervise(prop: &dyn Property, tier: Tier, seed: u64) -> i32 {
             "KNOWN-FINDING: property={} signature={} hits={} {}",
             id, sig, hits, what
         );
+    }
+    {
+        let mut seen = BTreeSet::new();
+        total.violations.retain(|v| seen.insert(v.replay.clone()));
     }
     for v in &total.violations {
         println!("VIOLATION property={} replay={}", id, v.replay);
@@ -830,6 +882,7 @@ pub fn run_shard_main(prop: &dyn Property, tier: Tier, seed: u64, shard: usize, 
         shard,
         replay: false,
         seed,
+        out_path: Some(out.to_path_buf()),
     };
     if prop.needs_shim() && !crate::shim::present() {
         let rep = ShardReport {
@@ -887,6 +940,7 @@ pub fn replay_main(props: &[&dyn Property], path: &Path) -> i32 {
         shard: 0,
         replay: true,
         seed: cf.seed,
+        out_path: None,
     };
     let known = Known::load();
     let mut code = 0;
